@@ -28,11 +28,27 @@ func c06Shares(a, b []int) bool {
 }
 
 func VerifHarness_C06_cancel() {
-	ctx := context.Background()
 	maxUnconf, maxBlockTxs := 2, 2
 	if verifrt.Thorough() {
 		maxUnconf, maxBlockTxs = 2, 3
 	}
+	c06Scenario(maxUnconf, maxBlockTxs, c06Subsets, true)
+}
+
+// VerifHarness_C06_rivals: the unconfirmed transactions double spend EACH OTHER as well (up to
+// three rivals for outpoint 0) before a block settles the matter: every relevant rival that is
+// not the confirmed one is cancelled, whatever the order they arrived in.
+func VerifHarness_C06_rivals() {
+	subsets := [][]int{{0}, {0, 1}, {1}}
+	if verifrt.Thorough() {
+		subsets = [][]int{{0}, {0, 1}, {1}, {0, 2}}
+	}
+	c06Scenario(3, 1, subsets, false)
+	verifrt.Reach("C06.rivals.done")
+}
+
+func c06Scenario(maxUnconf, maxBlockTxs int, subsets [][]int, disjoint bool) {
+	ctx := context.Background()
 	k, err := vkNewNode(ctx, nil)
 	verifrt.Assert(err == nil, "C06.kit.node-loads")
 	node, rec := k.node, k.rec
@@ -48,13 +64,14 @@ func VerifHarness_C06_cancel() {
 	nU := verifrt.Choose("unconfirmed", maxUnconf+1)
 	var us []utx
 	for i := 0; i < nU; i++ {
-		sp := c06Subsets[verifrt.Choose("u.inputs", len(c06Subsets))]
+		sp := subsets[verifrt.Choose("u.inputs", len(subsets))]
 		rel := verifrt.Choose("u.relevant", 2) == 1
 		tx := vkTx(10+i, sp, rel)
 		u := utx{tx, *tx.TxHash(), sp, rel}
-		// two unconfirmed txs sharing an outpoint are C05's subject; keep them disjoint here
-		for _, o := range us {
-			verifrt.Assume(!c06Shares(o.spends, sp))
+		if disjoint {
+			for _, o := range us {
+				verifrt.Assume(!c06Shares(o.spends, sp))
+			}
 		}
 		us = append(us, u)
 		perr := node.processUnconfirmedTx(ctx, handlers.TxData{Msg: tx, Trusted: true, ConfirmedHeight: -1})
@@ -84,7 +101,7 @@ func VerifHarness_C06_cancel() {
 				verifrt.Assume(o.txid != b.txid)
 			}
 		} else {
-			sp := c06Subsets[verifrt.Choose("b.inputs", len(c06Subsets))]
+			sp := subsets[verifrt.Choose("b.inputs", len(subsets))]
 			rel := verifrt.Choose("b.relevant", 2) == 1
 			tx := vkTx(20+j, sp, rel)
 			b = utx{tx, *tx.TxHash(), sp, rel}
